@@ -649,6 +649,13 @@ def oracle(c, impl, model):
         else:
             STATS["symmetric_outside_premise_not_dominant"] += 1
             demand = False
+            # The property's literal clause ("equals the common centre of inputs placed symmetrically around it", quantifier
+            # incl. unscented weight sets) is FALSE here (C18_mean_symmetric_negative_weight_refuted): with a negative central
+            # weight and offsets this wide the centre is not the dominant eigen-direction of sum w_i q_i q_i^T, and the
+            # library returns the dominant one.  A genuine (registered) finding, pinned to exactly this input class.
+            if w[0] < 0 and np.all(w[1:] > 0) and up_to_sign(m, qc) > tol:
+                v.append(("C18:mean:symmetric-centre:negative-central-weight:centre-not-dominant",
+                          "mean %s for centre %s (w0 = %.6g, resultant margin %.3g <= 0)" % (m, qc, float(w[0]), margin)))
         if demand and up_to_sign(m, qc) > tol:
             v.append(("C18:mean:symmetric-centre", "mean %s for centre %s (margin %.3g)" % (m, qc, margin)))
     return v
